@@ -19,6 +19,13 @@ type constEnv struct {
 	leaf func(f *Fn, e ast.Expr) (constant.Value, bool)
 	// trace, when set, is told what the abstract run of evalBody passes: ("panic", <argument>) and ("assign", <target>)
 	trace func(kind, what string)
+	// retLabel, when set, names a returned expression that is not a constant (instead of "?"); a returned call of a
+	// library function is followed into that function first (same leaf values, parameters unbound)
+	retLabel func(f *Fn, e ast.Expr) string
+	// visit, when set, is shown every statement-level node that lies on an explored path (expression statements,
+	// assignments, conditions and initialisers of if/switch, returned expressions); with it set, loops are entered
+	// (their body is run once; continue/break end that run)
+	visit func(f *Fn, n ast.Node)
 }
 
 func (ev *constEnv) eval(f *Fn, e ast.Expr, depth int) (constant.Value, bool) {
@@ -170,6 +177,41 @@ func enumConstants(t types.Type) []*types.Const {
 // assignments, which are skipped); anything else makes the result "?".
 func (ev *constEnv) evalBody(f *Fn, list []ast.Stmt, out map[string]bool, depth int) (terminated bool) {
 	for _, st := range list {
+		if ev.visit != nil {
+			switch x := st.(type) {
+			case *ast.ReturnStmt, *ast.ExprStmt, *ast.AssignStmt:
+				ev.visit(f, x)
+			case *ast.IfStmt:
+				if x.Init != nil {
+					ev.visit(f, x.Init)
+				}
+				ev.visit(f, x.Cond)
+			case *ast.SwitchStmt:
+				if x.Init != nil {
+					ev.visit(f, x.Init)
+				}
+				if x.Tag != nil {
+					ev.visit(f, x.Tag)
+				}
+			case *ast.RangeStmt:
+				ev.visit(f, x.X)
+				ev.evalBody(f, x.Body.List, out, depth)
+				continue
+			case *ast.ForStmt:
+				if x.Init != nil {
+					ev.visit(f, x.Init)
+				}
+				if x.Cond != nil {
+					ev.visit(f, x.Cond)
+				}
+				ev.evalBody(f, x.Body.List, out, depth)
+				continue
+			case *ast.BranchStmt:
+				if x.Tok == token.CONTINUE || x.Tok == token.BREAK {
+					return true
+				}
+			}
+		}
 		switch x := st.(type) {
 		case *ast.ReturnStmt:
 			if len(x.Results) != 1 {
@@ -178,6 +220,23 @@ func (ev *constEnv) evalBody(f *Fn, list []ast.Stmt, out map[string]bool, depth 
 			}
 			if v, ok := ev.eval(f, x.Results[0], depth); ok {
 				out[v.ExactString()] = true
+			} else if ev.retLabel != nil {
+				if call, isCall := ast.Unparen(x.Results[0]).(*ast.CallExpr); isCall && depth < 3 {
+					if cal := callee(f.Pkg, call); cal != nil {
+						if g := ev.c.fnOf(cal); g != nil && g.Decl.Body != nil && g != f {
+							sub := &constEnv{c: ev.c, vars: map[types.Object]constant.Value{}, leaf: ev.leaf, retLabel: ev.retLabel}
+							inner := map[string]bool{}
+							sub.evalBody(g, g.Decl.Body.List, inner, depth+1)
+							if !inner["?"] && len(inner) > 0 {
+								for k := range inner {
+									out[k] = true
+								}
+								return true
+							}
+						}
+					}
+				}
+				out[ev.retLabel(f, x.Results[0])] = true
 			} else {
 				out["?"] = true
 			}
